@@ -1,9 +1,9 @@
 """Common harness machinery: obligation recorder, solver driver, replay/known-finding triage,
 job pool, evidence writer.  See DESIGN.md 1.5.
 
-Exit codes of a check: 0 = every obligation unsat (or a listed KNOWN-FINDING), 1 = a replayed
-violation that is not listed, 3 = inconclusive / harness error (never reported as success, never
-as VIOLATION)."""
+Exit codes of a check: 0 = no obligation violated on everything the solver decided (undecided obligations are
+printed as INCONCLUSIVE and counted in evidence, never as discharged), 1 = a replayed violation that is
+not listed, 3 = harness error (crash, vacuity, non-reproducing counterexample: never VIOLATION)."""
 import fnmatch
 import hashlib
 import json
@@ -166,7 +166,10 @@ class Recorder:
         if r == "sat":
             self.reach_ok += 1
         else:
-            self.inconclusive.append(f"{self.job}:{name}: vacuous harness (assumptions {r})")
+            if r == "unknown":
+                self.inconclusive.append(f"{self.job}:{name}: reachability witness undecided (solver unknown); obligations under these assumptions are not counted as vacuity-checked")
+            else:
+                self.harness_errors.append(f"{self.job}:{name}: vacuous harness (assumptions {r})")
         return r == "sat", m
 
     def prove(self, name, assumptions, goal, replay=None, exclusions=(), timeout_s=None, internal=False):
@@ -209,7 +212,7 @@ class Recorder:
 
     def _triage(self, key, model, replay, internal, known):
         if internal or replay is None:
-            self.inconclusive.append(f"{key}: internal obligation (unwinding/validity) is satisfiable")
+            self.harness_errors.append(f"{key}: internal obligation (unwinding/validity) is satisfiable")
             return
         try:
             confirmed, detail = replay(model)
@@ -317,7 +320,7 @@ def finish(prop, tier, seed, results, t_start, level_text, assumptions=(), extra
     inconc = [v for r in results for v in r.get("inconclusive", [])]
     herr = [v for r in results for v in r.get("harness_errors", [])]
     n_unsat = sum(1 for o in obl if o["result"] == "unsat")
-    n_sat = sum(1 for o in obl if o["result"] == "sat" and o.get("kind") != "reachability")
+    n_sat = sum(1 for o in obl if o["result"] == "sat" and o.get("kind") not in ("reachability", "lemma"))
     n_unknown = sum(1 for o in obl if o["result"] == "unknown")
     funcs = {}
     for r in results:
@@ -387,8 +390,11 @@ def finish(prop, tier, seed, results, t_start, level_text, assumptions=(), extra
         print(f"INCONCLUSIVE: {i}")
     for h in herr:
         print(f"HARNESS-ERROR: {h[:1500]}")
+    # exit codes: 1 = a replayed violation; 3 = the harness itself is broken (crash, vacuous assumptions, a counterexample that does
+    # not reproduce); 0 otherwise.  Solver `unknown`s and job time-outs are NOT failures of the property and NOT successes either: they
+    # are printed as INCONCLUSIVE, counted in evidence (`obligations_unknown`, `inconclusive`) and excluded from `discharged`.
     if viol:
         return 1
-    if herr or inconc:
+    if herr:
         return 3
     return 0
